@@ -35,6 +35,7 @@ package main
 
 import (
 	"fmt"
+	"strings"
 	"time"
 
 	"verif/vkit"
@@ -184,14 +185,11 @@ func growTargets(l, c int) []int {
 // landing enumerates M(start) [X=len] grow(T) F M(n); one work item per (allocator, start).
 func landing(tier string, sh *vkit.Shard, p *vkit.Part, deadline time.Time) {
 	for _, c := range extConfigs(tier) {
-		if c.Name == "aligned@32K+rel" {
+		if strings.HasPrefix(c.Name, "aligned@32K+rel") {
 			continue // same allocator as aligned+rel; the family has its own start sizes
 		}
 		lc := *c
-		lc.Name = c.Kind + " grow-free-malloc"
-		if c.Kind == "pooled" {
-			lc.Name = fmt.Sprintf("pooled(%d,%d) grow-free-malloc", c.Buf, c.Free)
-		}
+		lc.Name = landingName(c)
 		for _, start := range landingStarts(c) {
 			if !sh.Mine() {
 				continue
@@ -201,13 +199,20 @@ func landing(tier string, sh *vkit.Shard, p *vkit.Part, deadline time.Time) {
 	}
 }
 
+func landingName(c *acfg) string {
+	name := c.Kind + " grow-free-malloc"
+	if c.Kind == "pooled" {
+		name = fmt.Sprintf("pooled(%d,%d) grow-free-malloc", c.Buf, c.Free)
+	}
+	if c.Pkg {
+		name += "/pkg"
+	}
+	return name
+}
+
 func landingCfgByName(n string) *acfg {
 	for _, c := range extConfigs("thorough") {
-		name := c.Kind + " grow-free-malloc"
-		if c.Kind == "pooled" {
-			name = fmt.Sprintf("pooled(%d,%d) grow-free-malloc", c.Buf, c.Free)
-		}
-		if name == n {
+		if landingName(c) == n {
 			lc := *c
 			lc.Name = n
 			return &lc
